@@ -152,17 +152,22 @@ theorem glycan_comp_fold (mono : List Entry) (g acc : Comp)
     glycanCompDict mono g acc = .ok (compFold mono g acc) :=
   glycanCompDict_eq_fold mono g acc h
 
-/-- linearity: the count of every element `el` in the result is `Σ n_k(el) · v` over the items `(k, v)` -/
-theorem glycan_comp_linear (mono : List Entry) (g : Comp) (el : Str)
+/-- linearity: the result has every element once, and the count stored under every element `el` (0 when absent) is
+`Σ n_k(el) · v` over the items `(k, v)` -/
+theorem glycan_comp_linear (mono : List Entry) (g : Comp)
     (h : ∀ kv ∈ g, (monoComp mono kv.1).isSome = true) :
-    ∃ c, glycanCompDict mono g [] = .ok c ∧ compVal c el = compSum mono g el := by
-  refine ⟨compFold mono g [], glycanCompDict_eq_fold mono g [] h, ?_⟩
-  rw [compVal_compFold, compVal_nil]
+    ∃ c, glycanCompDict mono g [] = .ok c ∧ (c.map (·.1)).Nodup ∧
+      ∀ el, countAt c el = compSum mono g el := by
+  have hnd := nodup_compFold mono g [] List.nodup_nil
+  refine ⟨compFold mono g [], glycanCompDict_eq_fold mono g [] h, hnd, ?_⟩
+  intro el
+  rw [← compVal_eq_get el _ hnd, compVal_compFold, compVal_nil]
   ring
 
-theorem glycan_comp_linear_gen (g : Comp) (el : Str) (h : ∀ kv ∈ g, kv.1 ∈ namesSorted MONO) :
-    ∃ c, glycanCompDict MONO g [] = .ok c ∧ compVal c el = compSum MONO g el :=
-  glycan_comp_linear MONO g el (fun kv hkv => (vocabulary_known kv.1 (h kv hkv)).1)
+theorem glycan_comp_linear_gen (g : Comp) (h : ∀ kv ∈ g, kv.1 ∈ namesSorted MONO) :
+    ∃ c, glycanCompDict MONO g [] = .ok c ∧ (c.map (·.1)).Nodup ∧
+      ∀ el, countAt c el = compSum MONO g el :=
+  glycan_comp_linear MONO g (fun kv hkv => (vocabulary_known kv.1 (h kv hkv)).1)
 
 example : glycanCompDict MONO [(str% "HexNAc", Num.ofInt 2), (str% "Fucose", Num.ofInt 1)] [] =
     .ok [(str% "C", Num.ofInt 22), (str% "H", Num.ofInt 36), (str% "N", Num.ofInt 2), (str% "O", Num.ofInt 14)] := by
@@ -377,6 +382,33 @@ example : writeGlycan [(str% "HexNAc", Num.ofInt 2), (str% "Neu", Num.ofInt 5), 
 `glycan_parse_repeated_key_assigns`) -/
 theorem glycan_parse_sep_repeated_key_accumulates :
     parseGlycan MONO (str% "Hex 2 Fuc 1 Hex 3") [32] = .ok [(str% "Hex", Num.ofInt 5), (str% "Fuc", Num.ofInt 1)] := by
+  decide +kernel
+
+/-! ## the property, assembled (generated table) -/
+
+/-- C15 for glycans: a dict over the 47 names and synonyms, pairwise different keys, int / finite-decimal counts,
+written in a form that is unambiguous — then the text parses to the dict, its mass is the count-weighted sum of the
+monosaccharide masses, its composition is the count-weighted sum of the monosaccharide compositions (element by
+element), and both sums are unchanged when every synonym is replaced by the name of its entry -/
+theorem glycan_formula_property (g : Comp) (isMono : Bool) (hu : Unambig (namesSorted MONO) g = true)
+    (hv : ∀ kv ∈ g, NumWF kv.2) (hd : (g.map (·.1)).Nodup) :
+    parseGlycan MONO (writeGlycan g []) [] = .ok g ∧
+    glycanMassStr MONO isMono (writeGlycan g []) = .ok (massSum MONO isMono g) ∧
+    (∃ c, glycanCompStr MONO (writeGlycan g []) = .ok c ∧ (c.map (·.1)).Nodup ∧
+      ∀ el, countAt c el = compSum MONO g el) ∧
+    massSum MONO isMono (mapKeys (canon MONO) g) = massSum MONO isMono g ∧
+    ∀ el, compSum MONO (mapKeys (canon MONO) g) el = compSum MONO g el := by
+  have hk := unambig_keys _ g hu
+  have hstr := glycan_str_eq_dict g isMono hu hv hd
+  have hcanon : ∀ kv ∈ g, monoEntry MONO (canon MONO kv.1) = monoEntry MONO kv.1 :=
+    fun kv _ => monoEntry_canon MONO (fun e he => (synonym_eq_name e he).1) kv.1
+  refine ⟨glycan_parse_write_gen g hu hv hd, ?_, ?_, massSum_mapKeys MONO isMono _ g hcanon,
+    fun el => compSum_mapKeys MONO _ g el hcanon⟩
+  · rw [hstr.2]; exact glycan_mass_linear_gen isMono g hk
+  · rw [hstr.1]; exact glycan_comp_linear_gen g hk
+
+example : Unambig (namesSorted MONO) [(str% "HexNAc", Num.ofInt 4), (str% "Hex", Num.ofInt 5),
+    (str% "Fucose", Num.ofInt 1), (str% "NeuAc", ⟨3/2, true⟩), (str% "S", Num.ofInt (-2))] = true := by
   decide +kernel
 
 end C15Glycan
